@@ -64,7 +64,7 @@ ASSUMPTIONS = [
     "they are observed on the real code and compared with the model's prediction 'nothing changes' (this property is partial by nature)",
     "joblib.Parallel returns results in submission order (exercised by the `par` cases against Par.parallelMap)",
     "`predict()` without a horizon means 'the horizon given last' (by design of _OptionalForecastingHorizonMixin); its effective argument is that horizon",
-    "results of equal-parameter twins fitted with different n_jobs are compared with relative tolerance 1e-9, repeated calls on one object exactly",
+    "results are compared with relative tolerance 1e-9 (BLAS / summation-order rounding is not judged), labels / shapes / error kinds exactly",
     "estimators that cannot run in this sandbox (soft dependencies, compiled extensions, sklearn-1.7 parameter validation) are covered by the static tie only",
 ]
 RULE = ("per runnable estimator (forecasters incl. composites, series / panel transformers, TSF/RISE/BOSS-family classifiers, TSF regressor) x containers "
@@ -594,7 +594,7 @@ def run_seq(c):
             elif isinstance(f0[0], str):
                 dig = result_digest(res)
             else:
-                tol = 0.0 if inst == "o" else 1e-9
+                tol = 1e-9       # rounding-level differences (BLAS threading) are not what the property is about
                 dig = f0[1] if same_result(f0[0], res, tol) else result_digest(res)
         obs["calls"].append([inst, method, argid, flag, dig])
     obs["first"] = {"%s/%s" % k: [v[1], bool(v[2])] for k, v in firsts.items()}
@@ -1013,7 +1013,8 @@ def _history12(rng, core, mode, long=False):
                 if fh is not None:
                     stored = True
             ops.append(["pred", fh])
-        elif r < 0.9:
+        elif r < 0.9 and not opq:
+            # update_predict: only where the model's `updatePredict` (_BaseWindowForecaster) is the code that runs
             m = rng.randrange(1, 6)
             batch = M.stretch(rng, cutoff + 1, m, 0.0, opq, 0.0)
             explicit = [rng.choice(["s", "e"]), sorted(rng.sample(range(1, 4), rng.choice([1, 1, 2]))),
